@@ -149,6 +149,8 @@ def check(ctx, rep):
              "directory must not be replayed for another)", floor=1)
     rep.rule("R07k", "= R10a: a stored listing stands in for the directory only within the configured lifetime - what was listed, hidden or ordered "
              "by metadata that has changed since is generated again", floor=1)
+    rep.rule("R07n", "the filter keeps a name out exactly when the configured ignore pattern matches selectorbase/name, in the root as in any other "
+             "directory: the base filter is evaluated with the shipped patterns on names on both sides of their alternatives", floor=1)
     rep.rule("R07i", "= R10c: the listing kept for later requests is the final one (hidden names removed, merged, sorted) - never an intermediate list", floor=2)
     rep.rule("R07h", "the real-file-system VFS lists names exactly as the OS returns them (file-system decoding only): the selector built from a listed name is the name on disk", floor=1)
     rep.rule("R07f", "a name is appended to the file list exactly when the filter accepts it, once", floor=1)
@@ -320,6 +322,8 @@ def check(ctx, rep):
     shared_state_obligations(ctx, rep, "R07j", _Eff(prog, ctx.resolver), listing_funcs, sequential=True)
     if len(rep.obligations) == n_before:
         rep.ok("R07j", f"no module- or class-level state is written while a listing is built [{len(listing_funcs)} functions]", "pygopherd/handlers/dir.py")
+    # ------------------------------------------------------------------ R07n
+    ignore_filter_obligations(ctx, rep, "R07n", dirbase_ := ctx.cls("handlers.dir.DirHandler"))
     # ------------------------------------------------------------------ R07i
     from .c10 import freshness_obligations, save_order_obligations
     save_order_obligations(ctx, rep, "R07i")
@@ -463,3 +467,51 @@ def check(ctx, rep):
                         if norm(args[2]) != var or pcs != [("expr", "self.selectorbase"), ("lit", "/"), ("expr", var)]:
                             problems.append("the filter is not applied to selectorbase/name")
         rep.add("R07f", f"{pi.qualname}: append iff accepted, once", not problems, ctx.where(pi), "; ".join(sorted(set(problems))), key="R07f|prep_initfiles")
+
+
+# ---------------------------------------------------------------------------------------------- R07n
+def ignore_filter_obligations(ctx, rep, rule, dirbase):
+    import re as _re
+
+    from ..paths import Const as _C, PathLimit, Walker as _W
+
+    prog = ctx.prog
+    f = prog.resolve_method(dirbase, "prep_initfiles_canaddfile") if dirbase else None
+    if f is None or len(f.params) < 4:
+        rep.fail(rule, "DirHandler.prep_initfiles_canaddfile", detail="listing filter not found")
+        return
+    patterns = {}
+    for rel, raw in ctx.config.get("handlers.dir.DirHandler", "ignorepatt").items():
+        patterns.setdefault(raw, rel)
+    names = ["robots.txt", "lib", "library", "bin", "notes.txt", "lost+found", "gophermap", "x.abstract", "backup~", ".cap", ".cache.pygopherd.dir",
+             "a.3d", "veronica.ctl", "etc", "etcetera", "nohup.out", "form.ask", "plain"]
+    for patt, rel in sorted(patterns.items()):
+        try:
+            rx = _re.compile(patt)
+        except _re.error:
+            rep.fail(rule, f"{rel}: ignorepatt", rel, "the configured ignore pattern is not a regular expression")
+            continue
+        problems, n = [], 0
+        for sel, base in (("/", ""), ("/sub", "/sub"), ("/a/b.d", "/a/b.d")):
+            for name in names:
+                cand = base + "/" + name
+                facts = {"self.selector": _C(sel), "self.selectorbase": _C(base)}
+                w = _W(prog, ctx.resolver, exact_loops=True, unroll=4, assumptions=dict(facts), max_paths=4000,
+                       inline=lambda fn, t, d: d < 2 and t.bound_cls is not None)
+                outs = set()
+                try:
+                    for p in w.run(f, dirbase, env={f.params[1]: _C(patt), f.params[2]: _C(cand), f.params[3]: _C(name)}, facts=dict(facts)):
+                        outs.add(truth(p.value) if p.kind == "return" and p.value is not None else "?")
+                except PathLimit:
+                    outs = {"?"}
+                if len(outs) != 1 or next(iter(outs)) not in (True, False):
+                    continue
+                n += 1
+                want = rx.search(cand) is None
+                got = next(iter(outs))
+                if got is not want:
+                    problems.append(f"in the directory {sel!r} the name {name!r} is {'listed' if got else 'left out'} although the pattern "
+                                    f"{'matches' if not want else 'does not match'} {cand!r}")
+        enough = n >= len(names)
+        rep.add(rule, f"{rel}: {f.qualname} agrees with the ignore pattern [{n} names evaluated]", not problems and enough, ctx.where(f),
+                "; ".join(problems[:3]) if problems else ("" if enough else "the walker could not follow the filter"), key=f"{rule}|{rel}", nontrivial=enough)
